@@ -253,6 +253,10 @@ class FiatTranslator(limbir.Translator):
                 if c.e[1] >= 2:
                     raise TransErr('cmovznz with constant condition >= 2', ln)
                 r = z if c.e[1] == 0 else nz
+            elif z.e[0] == 'c' and nz.e[0] == 'c':
+                # a select between two constants stays symbolic so that a following `& constant` folds into the
+                # branches (`binop` below): `cmovznz(b, 0, 0xff..f) & k` is `sel b 0 k`, not an opaque bit operation
+                r = Int(('sel', c.e, z.e, nz.e), uw)
             else:
                 r = self.materialize(Int(('sel', c.e, z.e, nz.e), uw))
             args[0].pl.set(r)
@@ -263,6 +267,15 @@ class FiatTranslator(limbir.Translator):
             self.notes.append('idiom %s: helper body matched its template; meaning valid on the domain stated in fiatir.py'
                               % tag)
         return UNIT
+
+    def binop(self, op, a, b, line):
+        # (sel c k0 k1) & k  =  sel c (k0 & k) (k1 & k)   for constants k0, k1, k
+        if op == '&' and isinstance(a, Int) and isinstance(b, Int):
+            for x, y in ((a, b), (b, a)):
+                if x.e[0] == 'sel' and x.e[2][0] == 'c' and x.e[3][0] == 'c' and y.e[0] == 'c':
+                    ty = x.ty if x.ty is not None else y.ty
+                    return Int(('sel', x.e[1], ('c', x.e[2][1] & y.e[1]), ('c', x.e[3][1] & y.e[1])), ty)
+        return limbir.Translator.binop(self, op, a, b, line)
 
     def ev_mcall(self, e, env):
         ln = e[1]
